@@ -7,6 +7,9 @@ import CogentModel.Proofs.StoreWriteLemmas
 import CogentModel.Model.AtomicProg
 import CogentModel.Proofs.AtomicProgLemmas
 import CogentModel.Gen.C19Program
+import CogentModel.Model.AtomicSite
+import CogentModel.Proofs.AtomicSiteLemmas
+import CogentModel.Gen.C19Writers
 /-! # C19 — file writes are all-or-nothing; interrupted runs resume to the same result
 
 `j.cfg` (`Job.cfg`) is THE model of the code as it is now: one-call commit (`src.replace(dest)`),
@@ -344,6 +347,155 @@ example : (AtomicWrite.exec exFS (fmtFailTrace exCfg 1)).1 [0, 1] = some (.file 
     (AtomicWrite.exec exFS (fmtFailTrace exCfg 1)).1 [0, 2] = none ∧ (fmtFailTrace exCfg 1).length = 5 := by decide
 
 end translated
+
+/-! ## wave 2: the `tmpdir=` route at every crash point and under a fault at every call; the bare-object protocol;
+the writers' call sites -/
+section wave2
+open CogentModel.AtomicProg CogentModel.AtomicSite
+
+/-- **`atomic_write(path, tmpdir=D)` killed at ANY point** (`crashStateTmp … k` = exactly the first `k` calls of the route
+happened; open, the writes, close, rename, the unlink of the temp file): up to and including the point just before the rename
+the destination holds its previous content (or absence), from the rename on the complete new content and the temp file is
+gone; every path other than the destination and the temp file — everything the caller keeps in `D` — is untouched at every
+prefix.  (A kill before the rename can leave the temp file in `D`; nothing can remove it then.) -/
+theorem tmpdir_route_all_prefixes (j : Job) (fs : FS) (h : WFtmp j.cfg fs) (k : Nat) :
+    (k ≤ j.chunks.length + 2 → crashStateTmp j.cfg fs k j.cfg.dest = fs j.cfg.dest) ∧
+    (j.chunks.length + 2 < k → crashStateTmp j.cfg fs k j.cfg.dest = some (.file j.cfg.newData) ∧
+      crashStateTmp j.cfg fs k j.cfg.tmpfile = none) ∧
+    (∀ q, q ≠ j.cfg.dest → q ≠ j.cfg.tmpfile → crashStateTmp j.cfg fs k q = fs q) := by
+  have hne := (tmpfile_ne_dest j.cfg h.hne).symm
+  refine ⟨fun hk => crashTmp_before j.cfg fs k hk _ hne, fun hk => ?_, fun q h1 h2 => ?_⟩
+  · rw [crashTmp_after j.cfg fs h k (by have e : j.cfg.chunks.length = j.chunks.length := rfl; omega)]
+    exact ⟨by simp [tmpCommitted, upd, hne], by simp [tmpCommitted]⟩
+  · by_cases hk : k ≤ j.chunks.length + 2
+    · exact crashTmp_before j.cfg fs k hk q h2
+    · rw [crashTmp_after j.cfg fs h k (by have e : j.cfg.chunks.length = j.chunks.length := rfl; omega)]
+      simp [tmpCommitted, tmpState, upd, h1, h2]
+
+example : crashStateTmp exCfg exFStmp 3 [0, 1] = some (.file [9]) ∧ crashStateTmp exCfg exFStmp 3 [0, 2, 3] = some (.file [5, 6, 7]) ∧
+    crashStateTmp exCfg exFStmp 5 [0, 1] = some (.file [5, 6, 7]) ∧ crashStateTmp exCfg exFStmp 5 [0, 2, 3] = none ∧
+    crashStateTmp exCfg exFStmp 4 [0, 2, 7] = some (.file [4, 4]) := by decide
+
+/-- **OSError at EVERY call of the `tmpdir=` route** (the translated code, with-statement protocol): the calls issued are
+the first `k`, the failing one and `handlerTmp` (the close of `__exit__` when the block raised, then `suppress(OSError):
+tmp.unlink()`); the exception reaches the caller unless the failing call is that final unlink; if it does, the destination
+keeps its previous content, if it does not, the destination holds the complete new content; in both cases the temp file is
+gone and every other path (the caller's directory and all it holds) is untouched. -/
+theorem tmpdir_route_fault_at_every_call (j : Job) (fs : FS) (h : WFtmp j.cfg fs) (hz : j.zipMember = none)
+    (hcb : j.closeInBody = false) (k : Nat) (hk : k < j.chunks.length + 4) :
+    runWith Gen.C19Program.code j.cfg false (some k) = ⟨faultTraceTmp j.cfg k, decide (k < j.chunks.length + 3), none⟩ ∧
+    (k < j.chunks.length + 3 → faultStateTmp j.cfg fs k j.cfg.dest = fs j.cfg.dest) ∧
+    (k = j.chunks.length + 3 → faultStateTmp j.cfg fs k j.cfg.dest = some (.file j.cfg.newData)) ∧
+    faultStateTmp j.cfg fs k j.cfg.tmpfile = none ∧
+    (∀ q, q ≠ j.cfg.dest → q ≠ j.cfg.tmpfile → faultStateTmp j.cfg fs k q = fs q) := by
+  have hne := (tmpfile_ne_dest j.cfg h.hne).symm
+  have hf : fileOrNone (fs j.cfg.tmpfile) := by rw [h.hfile]; trivial
+  refine ⟨by rw [translated_code_is_model]; exact runWith_hand_tmpdir_fault j.cfg hz hcb k hk, ?_, ?_, ?_, ?_⟩
+  · intro hk'; exact (faultTmp_before j.cfg fs hf k hk').2 _ hne
+  · intro hk'; subst hk'
+    rw [show j.chunks.length = j.cfg.chunks.length from rfl, faultTmp_last j.cfg fs h]; simp [tmpCommitted, upd, hne]
+  · by_cases hk' : k < j.chunks.length + 3
+    · exact (faultTmp_before j.cfg fs hf k hk').1
+    · have : k = j.cfg.chunks.length + 3 := by show k = j.chunks.length + 3; omega
+      rw [this, faultTmp_last j.cfg fs h]; simp [tmpCommitted]
+  · intro q h1 h2
+    by_cases hk' : k < j.chunks.length + 3
+    · exact (faultTmp_before j.cfg fs hf k hk').2 q h2
+    · have : k = j.cfg.chunks.length + 3 := by show k = j.chunks.length + 3; omega
+      rw [this, faultTmp_last j.cfg fs h]; simp [tmpCommitted, tmpState, upd, h1, h2]
+
+example : faultStateTmp exCfg exFStmp 2 [0, 1] = some (.file [9]) ∧ faultStateTmp exCfg exFStmp 2 [0, 2, 3] = none ∧
+    faultStateTmp exCfg exFStmp 4 [0, 1] = some (.file [9]) ∧ faultStateTmp exCfg exFStmp 5 [0, 1] = some (.file [5, 6, 7]) ∧
+    faultStateTmp exCfg exFStmp 0 [0, 2, 7] = some (.file [4, 4]) ∧ (faultTraceTmp exCfg 1).length = 4 := by decide
+
+/-- the three methods that drive a bare object, as translated -/
+def genBare : BareCode := ⟨Gen.C19Program.init, Gen.C19Program.bareWrite, Gen.C19Program.bareClose⟩
+
+/-- `atomic_write.write` (while no file is open: `_get_fileobj` opens the temp file, no guard) and `atomic_write.close`
+(`__exit__(None, None, None)`) as translated ARE the hand model -/
+theorem translated_bare_is_model : genBare = handBare := rfl
+
+/-- **the bare-object protocol** `aw = atomic_write(p); aw.write(ch)+; aw.close()` (what `open_zip(…, "w")` hands out): without
+a fault it issues exactly the flat program of the with-statement protocol — so `write_completes` and `atomic_all_prefixes`
+(every kill point) hold for it unchanged. -/
+theorem bare_object_run_is_program (j : Job) (hne : j.chunks ≠ []) :
+    runBare genBare j.cfg true none = ⟨program j.cfg, false, none⟩ := by
+  rw [translated_bare_is_model]; exact runBare_hand_none j.cfg rfl hne
+
+/-- …and under an OSError at call `k`: from `close()` on (`k ≥ n + 2`: close, rename, cleanup) the calls and therefore the
+outcome are those of the with-statement protocol (`fault_at_every_call_outcome`); BEFORE it (mkdtemp, the unguarded open in
+the first `write`, any data write) the exception propagates and NO further call is issued — the destination is untouched, but
+for `1 ≤ k` the temp dir stays behind (no `__enter__` guard, no `__exit__`): the "no temporary files after a handled failure"
+clause needs the with-block, which every writer of cogent3 uses (`writer_call_sites_covered`). -/
+theorem bare_object_fault_outcome (j : Job) (fs : FS) (h : WF j.cfg fs) (hz : j.zipMember = none) (hcb : j.closeInBody = false)
+    (hne : j.chunks ≠ []) (k : Nat) (hk : k < (program j.cfg).length) :
+    runBare genBare j.cfg true (some k) = ⟨bareFaultTrace j.cfg k, decide (k + 1 < (program j.cfg).length), none⟩ ∧
+    (k < j.chunks.length + 2 → bareFaultTrace j.cfg k = (program j.cfg).take (k + 1) ∧
+      crashState j.cfg fs k j.cfg.dest = fs j.cfg.dest ∧ (1 ≤ k → crashState j.cfg fs k j.cfg.tmpdir = some .dir)) ∧
+    (j.chunks.length + 2 ≤ k → bareFaultTrace j.cfg k = faultTrace j.cfg k ∧
+      (k + 1 < (program j.cfg).length → faultState j.cfg fs k j.cfg.dest = fs j.cfg.dest ∧
+        ∀ p, under j.cfg.tmpdir p = true → faultState j.cfg fs k p = none) ∧
+      (k + 1 = (program j.cfg).length → faultState j.cfg fs k j.cfg.dest = some (.file j.cfg.newData))) := by
+  have hpre : (pre j.cfg).length = j.chunks.length + 3 := pre_length j.cfg
+  refine ⟨by rw [translated_bare_is_model]; exact runBare_hand_fault j.cfg hz rfl rfl hcb hne k hk, ?_, ?_⟩
+  · intro hlt
+    refine ⟨by simp [bareFaultTrace, show k < j.cfg.chunks.length + 2 from hlt], ?_, ?_⟩
+    · exact crash_before_commit j.cfg fs h.hne k (by omega)
+    · intro h1; exact crash_tmpdir_pre j.cfg fs h k h1 (by omega)
+  · intro hge
+    have hnl : ¬ (k < j.cfg.chunks.length + 2) := by show ¬ (k < j.chunks.length + 2); omega
+    have ho := fault_at_every_call_outcome j fs h hz hcb k hk
+    rw [translated_fault_is_handler_table j hz hcb k hk] at ho
+    refine ⟨by simp [bareFaultTrace, hnl], fun hl => ho.1 (by simpa using hl), fun hl => ho.2 (by simp; omega)⟩
+
+example : (runBare genBare exCfg true (some 2)).trace.length = 3 ∧ (runBare genBare exCfg true (some 2)).raised = true ∧
+    crashState exCfg exFS 2 [0, 2] = some .dir ∧ crashState exCfg exFS 2 [0, 1] = some (.file [9]) ∧
+    (runBare genBare exCfg true (some 4)).trace = faultTrace exCfg 4 ∧ faultState exCfg exFS 4 [0, 2] = none := by decide
+
+/-- **every call site of `atomic_write` in cogent3** (Gen/C19Writers.lean, translated from all of src/cogent3 on every run): the
+ONLY call that does not satisfy the hypotheses of the outcome theorems (`Site.covered`: inside a with-block, no `tmpdir=`, no
+`in_zip=`, no file-system call in the writer's own handlers or block, no close of its own) is `open_zip`'s
+`return atomic_write(filename, mode=mode, in_zip=True)` — the `*.zip`-suffix route, which is exercised by injection only. -/
+theorem writer_call_sites_covered :
+    Gen.C19Writers.sites.filter (fun s => !s.covered) =
+      [⟨"util/io.py", "open_zip", .returned, false, true, false, false, false, "dynamic"⟩] := by
+  decide
+
+/-- …in particular every site used through a with-block or as a bare object (all the writers: alignments, collections, trees,
+tables, dict-arrays, tree collections, the directory data store's md5 and record files) is covered -/
+theorem writer_call_sites_all_with_block : ∀ s ∈ Gen.C19Writers.sites, s.protocol ≠ .returned → s.covered = true := by
+  decide
+
+/-- **a covered call site falls under the outcome theorems**: the configuration it induces for any write job is THE model
+`Job.cfg` (plain target, own temp dir, with-block), so at every crash point the destination is old-or-complete-new (old up
+to the rename, new after it, nothing outside the temp dir touched), and a fault at any call either raises with the old
+content and no temp path left, or (the swallowed cleanup failure) returns with the complete new content. -/
+theorem covered_call_site_all_or_nothing (s : Site) (hs : s.covered = true) (j : Job) (fs : FS) (h : WF (s.cfg j) fs) (k : Nat) :
+    s.cfg j = (plainJob j).cfg ∧
+    ((crashState (s.cfg j) fs k (s.cfg j).dest = fs (s.cfg j).dest ∨
+        crashState (s.cfg j) fs k (s.cfg j).dest = some (.file (s.cfg j).newData)) ∧
+      (k ≤ renameIdx (s.cfg j) → crashState (s.cfg j) fs k (s.cfg j).dest = fs (s.cfg j).dest) ∧
+      (renameIdx (s.cfg j) < k → crashState (s.cfg j) fs k (s.cfg j).dest = some (.file (s.cfg j).newData)) ∧
+      (∀ p, p ≠ (s.cfg j).dest → under (s.cfg j).tmpdir p = false → crashState (s.cfg j) fs k p = fs p)) ∧
+    (k < (program (s.cfg j)).length →
+      ((runWith Gen.C19Program.code (s.cfg j) s.own (some k)).raised = true →
+        faultState (s.cfg j) fs k (s.cfg j).dest = fs (s.cfg j).dest ∧
+          ∀ p, under (s.cfg j).tmpdir p = true → faultState (s.cfg j) fs k p = none) ∧
+      ((runWith Gen.C19Program.code (s.cfg j) s.own (some k)).raised = false →
+        faultState (s.cfg j) fs k (s.cfg j).dest = some (.file (s.cfg j).newData))) := by
+  have e := covered_cfg s hs j
+  have ho : s.own = true := by
+    simp only [Site.covered, Bool.and_eq_true, Bool.not_eq_eq_eq_not, Bool.not_true] at hs
+    simp [Site.own, hs.1.1.1.1.2]
+  rw [e] at h ⊢
+  rw [ho]
+  exact ⟨rfl, atomic_all_prefixes (plainJob j) fs h rfl k, fun hk => fault_at_every_call_outcome (plainJob j) fs h rfl rfl k hk⟩
+
+example : (Gen.C19Writers.sites.filter (·.covered)).length ≥ 8 ∧
+    (∀ s ∈ Gen.C19Writers.sites.filter (·.covered), (s.cfg exJob).withBlock = true ∧ (s.cfg exJob).zipMember = none ∧
+      (s.cfg exJob).bodyUnlink = false ∧ s.own = true) := by decide
+
+end wave2
 
 /-! ## historical variants (NOT the current code)
 
